@@ -165,10 +165,12 @@ func c19Gen(r *Run, rng *gen.Rng, corpus []string) *c19Inv {
 			// names that look like somebody's temporary, lock, backup or staging files
 			".tsh-draft.tmp", ".tsh-old.tmp", "draft.tmp", ".#main.tsh", "main.tsh~", ".main.tsh.swp", "#main.tsh#", "main.tsh.orig", "main.tsh.lock", "core", "nohup.out", "~$main.tsh", "main.tmp.tsh", "tmp.tsh",
 			// names spelled like switches a command might have (a value is a value wherever it stands)
-			"--help", "-h", "--version", "-v", "--", "-", "-i", "-o", "--out", "-t.tsh", "--in.tsh"})
+			"--help", "-h", "--version", "-v", "--", "-", "-i", "-o", "--out", "-t.tsh", "--in.tsh",
+			// … also in the switch=value notation; and values with = : , that a parser might split at
+			"-v=2.tsh", "--in=x.tsh", "-x=y", "a=b.tsh", "--type=bash", "k=v=w.tsh", "a,b.tsh", "a:b.tsh", "-i=main.tsh"})
 		if rng.Chance(7) {
 			// (the temp-like and switch-like names get a share of their own: the pool above is large)
-			nm = rng.Pick([]string{".tsh-draft.tmp", ".tsh-old.tmp", "draft.tmp", "main.tsh~", ".#main.tsh", "#main.tsh#", "main.tsh.lock", "--help", "-h", "--version", "-o"})
+			nm = rng.Pick([]string{".tsh-draft.tmp", ".tsh-old.tmp", "draft.tmp", "main.tsh~", ".#main.tsh", "#main.tsh#", "main.tsh.lock", "--help", "-h", "--version", "-o", "-v=2.tsh", "--in=x.tsh", "--type=bash"})
 		}
 		// imports are relative to the main file's directory: keep the directory, change the base name
 		nm = path.Join(path.Dir(main), path.Base(nm))
@@ -234,7 +236,7 @@ func c19Gen(r *Run, rng *gen.Rng, corpus []string) *c19Inv {
 	// an input that looks like somebody's temporary file is most interesting where temporary files
 	// are made: in the output directory itself
 	tmpLike := strings.Contains(path.Base(main), "tmp") || strings.ContainsAny(path.Base(main), "~#") || strings.HasSuffix(main, ".swp") || strings.HasSuffix(main, ".lock")
-	outAbs := rng.Pick([]string{"/sim/out", "/sim/out", "/w/build dir", mount, "/sim/bash", "/sim/batch", "/sim/-t", "/sim/out.d/v1.2", "/sim/build%20out", "/sim/out [1]", "/sim/ausgabe-ü", "/sim/出力", "/sim/out dir ", "/sim/ lead"})
+	outAbs := rng.Pick([]string{"/sim/out", "/sim/out", "/w/build dir", mount, "/sim/bash", "/sim/batch", "/sim/-t", "/sim/out.d/v1.2", "/sim/build%20out", "/sim/out [1]", "/sim/ausgabe-ü", "/sim/出力", "/sim/out dir ", "/sim/ lead", "/sim/-O=2", "/sim/--out=d", "/sim/a=b"})
 	if tmpLike && path.Dir(main) == "." && rng.Chance(60) {
 		outAbs = mount
 	}
